@@ -29,6 +29,14 @@ type Prog struct {
 	lits    map[*ast.FuncLit]*FuncCtx
 	NFuncs  int
 	Overlay map[string][]byte
+	funcsInl map[*types.Func]*FuncCtx
+	// KeepCalls: names ("pkgrel.Recv.name" or "pkgrel.name") of helpers that are never expanded
+	// because rules of the running property anchor on calls to them
+	KeepCalls map[string]bool
+	// AnchorsInlined: Func/LookupFunc return the variant with unexported helpers expanded
+	AnchorsInlined bool
+	litsInl  map[*ast.FuncLit]*FuncCtx
+	Inline  bool // expand statement-level calls to same-package helpers before building graphs (inline.go)
 }
 
 // FuncCtx is a function declaration or literal with its graph.
@@ -42,6 +50,7 @@ type FuncCtx struct {
 	Body   *ast.BlockStmt
 	G      *Graph
 	Name   string
+	Inl    bool // body has helper calls expanded (inline.go)
 }
 
 func goEnv() []string {
@@ -165,6 +174,9 @@ func (p *Prog) LookupFunc(rel, recv, name string) *FuncCtx {
 					continue
 				}
 			}
+			if p.AnchorsInlined {
+				return p.ctxOfDeclMode(pkg, fd, true)
+			}
 			return p.ctxOfDecl(pkg, fd)
 		}
 	}
@@ -200,18 +212,49 @@ func recvTypeName(e ast.Expr) string {
 }
 
 func (p *Prog) ctxOfDecl(pkg *packages.Package, fd *ast.FuncDecl) *FuncCtx {
+	return p.ctxOfDeclMode(pkg, fd, p.Inline)
+}
+
+// Inlined returns the variant of fc whose body has statement-level calls to unexported
+// same-package helpers expanded (see inline.go). Path rules that must not depend on how a
+// function is split into helpers use it.
+func (p *Prog) Inlined(fc *FuncCtx) *FuncCtx {
+	if fc == nil || fc.Inl {
+		return fc
+	}
+	if fc.Decl != nil {
+		return p.ctxOfDeclMode(fc.Pkg, fc.Decl, true)
+	}
+	if fc.Lit != nil && fc.Parent != nil {
+		return p.LitCtx(p.Inlined(fc.Parent), fc.Lit)
+	}
+	return fc
+}
+
+func (p *Prog) ctxOfDeclMode(pkg *packages.Package, fd *ast.FuncDecl, inl bool) *FuncCtx {
 	obj, _ := pkg.TypesInfo.Defs[fd.Name].(*types.Func)
-	if fc, ok := p.funcs[obj]; ok && obj != nil {
+	cache := p.funcs
+	if inl {
+		if p.funcsInl == nil {
+			p.funcsInl = map[*types.Func]*FuncCtx{}
+		}
+		cache = p.funcsInl
+	}
+	if fc, ok := cache[obj]; ok && obj != nil {
 		return fc
 	}
 	name := fd.Name.Name
 	if fd.Recv != nil && len(fd.Recv.List) == 1 {
 		name = "(" + exprStr(fd.Recv.List[0].Type) + ")." + name
 	}
-	fc := &FuncCtx{Prog: p, Pkg: pkg, Decl: fd, Obj: obj, Body: fd.Body, Name: relPkg(pkg.PkgPath) + "." + name}
-	fc.G = BuildGraph(fd.Body, pkg.TypesInfo, func(c *ast.CallExpr) bool { return isNoReturn(pkg.TypesInfo, c) })
+	body := fd.Body
+	if inl {
+		body = p.InlineBody(pkg, fd.Body, obj)
+	}
+	fc := &FuncCtx{Prog: p, Pkg: pkg, Decl: fd, Obj: obj, Body: body, Name: relPkg(pkg.PkgPath) + "." + name, Inl: inl}
+	fc.G = BuildGraph(body, pkg.TypesInfo, func(c *ast.CallExpr) bool { return isNoReturn(pkg.TypesInfo, c) })
 	if obj != nil {
-		p.funcs[obj] = fc
+		cache[obj] = fc
 	}
 	return fc
 }
@@ -257,13 +300,30 @@ func (p *Prog) CtxOfObj(fn *types.Func) *FuncCtx {
 
 // LitCtx returns the FuncCtx for a function literal found inside parent.
 func (p *Prog) LitCtx(parent *FuncCtx, lit *ast.FuncLit) *FuncCtx {
-	if fc, ok := p.lits[lit]; ok {
+	litCache := p.lits
+	if parent.Inl {
+		if p.litsInl == nil {
+			p.litsInl = map[*ast.FuncLit]*FuncCtx{}
+		}
+		litCache = p.litsInl
+	}
+	if fc, ok := litCache[lit]; ok {
 		return fc
 	}
-	fc := &FuncCtx{Prog: p, Pkg: parent.Pkg, Lit: lit, Parent: parent, Body: lit.Body,
-		Name: parent.Name + "$lit@" + p.posStr(lit.Pos())}
-	fc.G = BuildGraph(lit.Body, parent.Pkg.TypesInfo, func(c *ast.CallExpr) bool { return isNoReturn(parent.Pkg.TypesInfo, c) })
-	p.lits[lit] = fc
+	body := lit.Body
+	if parent.Inl {
+		var self *types.Func
+		for pp := parent; pp != nil; pp = pp.Parent {
+			if pp.Obj != nil {
+				self = pp.Obj
+			}
+		}
+		body = p.InlineBody(parent.Pkg, lit.Body, self)
+	}
+	fc := &FuncCtx{Prog: p, Pkg: parent.Pkg, Lit: lit, Parent: parent, Body: body,
+		Name: parent.Name + "$lit@" + p.posStr(lit.Pos()), Inl: parent.Inl}
+	fc.G = BuildGraph(body, parent.Pkg.TypesInfo, func(c *ast.CallExpr) bool { return isNoReturn(parent.Pkg.TypesInfo, c) })
+	litCache[lit] = fc
 	return fc
 }
 
@@ -419,7 +479,7 @@ func mp(rel string) string {
 // already holds, roots importing an edited root are re-checked against the edited one.
 func Recheck(base *Prog, overlay map[string][]byte) (*Prog, error) {
 	fset := base.Fset // append-only: re-parsed files are added under the same names
-	np := &Prog{Fset: fset, Pkgs: map[string]*packages.Package{}, funcs: map[*types.Func]*FuncCtx{}, lits: map[*ast.FuncLit]*FuncCtx{}, Overlay: overlay}
+	np := &Prog{Fset: fset, Pkgs: map[string]*packages.Package{}, funcs: map[*types.Func]*FuncCtx{}, lits: map[*ast.FuncLit]*FuncCtx{}, Overlay: overlay, Inline: base.Inline, AnchorsInlined: base.AnchorsInlined, KeepCalls: base.KeepCalls}
 	known := map[string]*types.Package{}
 	var walk func(tp *types.Package)
 	walk = func(tp *types.Package) {
